@@ -23,6 +23,7 @@ WEAK = {
     "PruneDropsLastChanged": ("C18_weak_PruneDropsLastChanged.cfg", ["AuditAfterReopen", "AuditLive"]),
     "PruneDropsCheckpoint": ("C18_weak_PruneDropsCheckpoint.cfg", ["AuditAfterReopen", "AuditLive"]),
     "PruneDropsParamsChanged": ("C18_weak_PruneDropsParamsChanged.cfg", ["AuditAfterReopen", "AuditLive"]),
+    "RecoveryDropsParamUpdates": ("C18_weak_RecoveryDropsParamUpdates.cfg", ["AuditAfterReopen", "AuditLive"]),
 }
 # reachability goals (negated as invariants): the model does prune more than one batch and does
 # leave LastHeightChanged / checkpoint records behind
@@ -257,7 +258,7 @@ def build_inputs(ctx, quick):
             forest, cforest = [], []
             for ops in scheds[i:i + per]:
                 trie_insert(forest, ops)
-                if name in cons_models and any(o["op"] == "PruneBlocks" for o in ops):
+                if name in cons_models and any(o["op"] in ("PruneBlocks", "Recover") for o in ops):
                     trie_insert(cforest, cons_ops(ops))
                     ncons += 1
             runs.append({"cfg": hc, "tree": forest, "label": "graph:" + name})
